@@ -102,7 +102,14 @@ def s_hash(F, res):
                 continue
             arg_roots = set()
             for a_ in (calls[0].term["args"] if fn_pat is None else calls[0].term["args"][:1]):
-                arg_roots |= {repr(x) for x in mir.provenance(e, du2, a_, transparent_extra=("std::option::Option::<T>::as_ref",))}
+                r_ = {repr(x) for x in mir.provenance(e, du2, a_, transparent_extra=("std::option::Option::<T>::as_ref",))}
+                arg_roots |= r_
+                if fn_pat is None and not (r_ & roots):
+                    # the hash is a function of the shipped witness set and the protocol parameters only: another input (the
+                    # template, a flag) means the hash can be withheld or changed for a witness set that needs it
+                    apl = mir.op_place(a_)
+                    if apl is None or "PParams" not in e["locals"][apl["l"]]:
+                        good = False
             if not (arg_roots & roots):
                 good = False
         if good:
